@@ -1,5 +1,5 @@
-"""C05.R3 / R5 / R7 — the keystream buffering protocol of a CTR encrypt function, decided by symbolic path
-execution over the whole function, whatever its shape.
+"""C05.R3 / R5 / R7 — the keystream buffering protocol of a CTR encrypt function, decided by path-sensitive abstract
+interpretation over the whole function, whatever its shape.
 
 The object keeps BATCH bytes of keystream in `ecounter` and the index of the first unused byte in `offset`.
 Two ghost quantities are tracked along every path:
